@@ -705,9 +705,10 @@ fn expr_p13<'t>(
         st: &mut SymbolTable,
     ) -> ParseResult<'t, (Located<Expression>, Located<Expression>)> {
         let (input, _) = parse_token(Token::QuestionMark)(input)?;
-        let (input, left) = expr_p13(input, st)?;
+        // Both arms may be assignment expressions: x ? y : z = w groups as x ? y : (z = w)
+        let (input, left) = expr_p14(input, st)?;
         let (input, _) = parse_token(Token::Colon)(input)?;
-        let (input, right) = expr_p13(input, st)?;
+        let (input, right) = expr_p14(input, st)?;
         Ok((input, (left, right)))
     }
 
